@@ -21,7 +21,7 @@ from rsparse import Unparsed
 
 REPO = os.environ.get("VERIF_REPO", "/repo")
 ROOT = os.path.dirname(HERE)
-OUT = os.path.join(ROOT, "lean", "GA", "Gen", "Body.lean")
+OUT = os.environ.get("VERIF_BODY_OUT", os.path.join(ROOT, "lean", "GA", "Gen", "Body.lean"))
 FLDS = {"index": ".index", "index_back": ".indexBack", "position": ".position"}
 
 
@@ -32,6 +32,7 @@ class Lowerer:
         self.nvars = 0
         self.notes = []
         self.depth = 0
+        self.ret_k = [lambda x, env: "(.done %s)" % x]   # where `return e` goes: the function's end / the inlining site
 
     # ------------------------------------------------------------------ environment
     def fresh(self, env, name, kind):
@@ -43,8 +44,9 @@ class Lowerer:
     # ------------------------------------------------------------------ pure expressions
     def obj_of(self, e, env):
         """IR object denoted by an expression that names a struct (`self`, `iter`)"""
-        if e[0] == "path" and e[1] in env and env[e[1]][0] in ("self", "outobj"):
-            return ".self" if env[e[1]][0] == "self" else ".out"
+        if e[0] == "path" and e[1] in env and env[e[1]][0] in ("self", "outobj", "objref"):
+            b = env[e[1]]
+            return ".self" if b[0] == "self" else (".out" if b[0] == "outobj" else b[1])
         if e[0] == "un" and e[1] in ("&", "&mut", "*"):
             return self.obj_of(e[2], env)
         raise Unparsed("not an object: %r" % (e,))
@@ -86,6 +88,8 @@ class Lowerer:
                     return "(.fld %s %s)" % (b[1], b[2])
                 if b[0] == "outobj":
                     return ".outObj"
+                if b[0] == "hint":
+                    return b[1]
                 raise Unparsed("name %s (%s) used as a value" % (name, b[0]))
             if name.split("::")[-1] == "USIZE":
                 return ".usize"
@@ -136,6 +140,12 @@ class Lowerer:
                 return "(.min %s %s)" % (self.X(e[2][0], env), self.X(e[2][1], env))
             if fn == "Some" and len(e[2]) == 1:
                 return "(.some %s)" % self.X(e[2][0], env)
+            if fn == "Ok" and len(e[2]) == 1:
+                return "(.ok %s)" % self.X(e[2][0], env)
+            if fn == "Err" and len(e[2]) == 1 and e[2][0] == ("path", "LengthError"):
+                return ".err"
+            if base == "array_assume_init" and len(e[2]) == 1 and e[2][0][0] == "path" and env.get(e[2][0][1], ("",))[0] == "arrout":
+                return ".arrOut"
             if base == "read" and fn.split("::")[0] in ("ptr", "core", "read") and len(e[2]) == 1:
                 return "(.read %s)" % self.X(e[2][0], env)
             raise Unparsed("call %s" % fn)
@@ -162,20 +172,29 @@ class Lowerer:
             if name == "finish" and not args and recv[0] == "method" and recv[2] == "field" and len(recv[3]) == 1 \
                     and recv[1][0] == "method" and recv[1][2] == "debug_tuple":
                 return "(.dbg %s)" % self.X(recv[3][0], env)
-            # a method of the same impl family on `self`: inline if it is a pure expression function
-            if recv[0] == "path" and recv[1] in env and env[recv[1]][0] == "self":
-                return self.inline_pure(name, args, env)
+            # a method of the same impl family on `self` (or on a local struct value): inline if it is a pure expression function
+            if recv[0] == "path" and recv[1] in env and env[recv[1]][0] in ("self", "objref"):
+                return self.inline_pure(name, args, env, recv=env[recv[1]])
             raise Unparsed("method %s" % name)
         raise Unparsed("expression %s" % k)
 
-    def find_callee(self, name):
+    def find_callee(self, name, typ=None):
+        if typ is not None:
+            for key in self.table:
+                if key[1] == name and ("impl<" in key[0] or "impl" in key[0]) and typ in key[0] and "for" not in key[0].split(typ)[0].split("impl")[-1]:
+                    return self.table[key]
+            raise Unparsed("no method %s of %s" % (name, typ))
         for key in self.table:
             if key[1] == name and key[0].split("/")[0] == self.impl_of.split("/")[0]:
                 return self.table[key]
+        for key in self.table:
+            if key[1] == name:
+                return self.table[key]
         raise Unparsed("no local method %s" % name)
 
-    def inline_pure(self, name, args, env):
-        hdr, body = self.find_callee(name)
+    def inline_pure(self, name, args, env, recv=None):
+        typ = recv[2] if recv is not None and recv[0] == "objref" and len(recv) > 2 else None
+        hdr, body = self.find_callee(name, typ)
         params = fn_params(hdr)
         if [p for p in params if p[1] == "value"] or args:
             raise Unparsed("inline_pure with arguments")
@@ -185,7 +204,7 @@ class Lowerer:
             raise Unparsed("inline depth")
         self.depth += 1
         try:
-            return self.X(body[2], {"self": env_self(env)})
+            return self.X(body[2], {"self": recv if recv is not None else env_self(env)})
         finally:
             self.depth -= 1
 
@@ -222,6 +241,12 @@ class Lowerer:
             return self.effect(s[1], env, cont)
         if kind == "for":
             return self.for_loop(s, env, cont)
+        if kind == "return":
+            # early return: the rest of the block is not executed
+            rk = env.get("$ret") or (lambda x, e: "(.done %s)" % x)
+            if s[1] is None:
+                return rk(".unit", env)
+            return self.value(s[1], env, lambda x, env2, knd: rk(x, env2))
         if kind == "item":
             raise Unparsed("nested item")
         raise Unparsed("statement %s" % kind)
@@ -261,6 +286,24 @@ class Lowerer:
                 close += ")"
                 env = self.fresh(env, name, "nat")
             return text + cont(env) + close
+        if pat[0] == "ptuple" and init[0] == "method" and init[1][0] == "path" and env.get(init[1][1], ("",))[0] == "objref" and not init[3]:
+            # `let (a, b) = builder.iter_position();` : the callee is a pure tuple of places of its receiver
+            recv = env[init[1][1]]
+            hdr, body = self.find_callee(init[2], recv[2] if len(recv) > 2 else None)
+            if body[1] or body[2] is None or body[2][0] != "tuple" or len(body[2][1]) != len(pat[1]):
+                raise Unparsed("callee %s is not a pure tuple" % init[2])
+            cenv = {"self": recv}
+            env = dict(env)
+            for pp, ee in zip(pat[1], body[2][1]):
+                if pp[0] != "pbind":
+                    raise Unparsed("tuple pattern element")
+                if ee[0] == "un" and ee[1] == "&mut" and ee[2][0] == "field" and ee[2][2] in FLDS:
+                    env[pp[1]] = ("place", self.obj_of(ee[2][1], cenv), FLDS[ee[2][2]])
+                elif ee[0] == "method" and ee[2] in ("iter_mut", "iter") and not ee[3]:
+                    env[pp[1]] = ("slotsiter", self.array_of(ee[1], cenv))
+                else:
+                    raise Unparsed("tuple element of %s" % init[2])
+            return cont(env)
         if pat[0] == "ptuple" and init[0] == "tuple" and len(pat[1]) == len(init[1]):
             def go(i, env2):
                 if i == len(pat[1]):
@@ -272,6 +315,38 @@ class Lowerer:
         if pat[0] != "pbind":
             raise Unparsed("pattern %r" % (pat,))
         name = pat[1]
+        # the caller's iterator: `let mut iter = iter.into_iter();`
+        if init[0] == "method" and init[2] == "into_iter" and not init[3] and init[1][0] == "path" \
+                and env.get(init[1][1], ("",))[0] in ("ignored", "ext"):
+            env = dict(env)
+            env[name] = ("ext",)
+            return cont(env)
+        # `let mut array = GenericArray::uninit();`
+        if init[0] == "call" and init[1][0] == "path" and init[1][1].split("::")[-1] == "uninit" and not init[2]:
+            env = dict(env)
+            env[name] = ("uninitarr",)
+            return cont(env)
+        # `let mut builder = IntrusiveArrayBuilder::new(&mut array);`
+        if init[0] == "call" and init[1][0] == "path" and init[1][1] == "IntrusiveArrayBuilder::new" and len(init[2]) == 1:
+            a = init[2][0]
+            while a[0] == "un":
+                a = a[2]
+            if a[0] != "path" or env.get(a[1], ("",))[0] != "uninitarr":
+                raise Unparsed("builder over something else than a fresh uninit array")
+            self.check_builder_new()
+            env = dict(env)
+            env[name] = ("objref", ".out", "IntrusiveArrayBuilder")
+            env[a[1]] = ("arrout",)
+            return "(.newBuilder\n  %s)" % cont(env)
+        # the destination slots: `self.array.iter_mut()`
+        if init[0] == "method" and init[2] == "iter_mut" and not init[3]:
+            try:
+                o = self.array_of(init[1], env)
+                env = dict(env)
+                env[name] = ("slotsiter", o)
+                return cont(env)
+            except Unparsed:
+                pass
         # aliases: `&mut self.position`, `self.array.iter_mut()`
         if init[0] == "un" and init[1] == "&mut" and init[2][0] == "field" and init[2][2] in FLDS:
             env = dict(env)
@@ -280,6 +355,73 @@ class Lowerer:
         if init[0] == "struct":
             return self.struct_lit(name, init, env, cont)
         return self.value(init, env, lambda x, env2, knd: "(.letv %s\n  %s)" % (x, cont(self.fresh(env2, name, knd))))
+
+    def check_builder_new(self):
+        hdr, body = self.find_callee("new", "IntrusiveArrayBuilder")
+        ok = (not body[1] and body[2] is not None and body[2][0] == "struct" and
+              sorted(body[2][2]) == sorted([("array", ("path", "array")), ("position", ("num", 0))]))
+        if not ok:
+            raise Unparsed("IntrusiveArrayBuilder::new is not `IntrusiveArrayBuilder { array, position: 0 }`")
+
+    def cond(self, e, env, kthen, kelse):
+        """lower a condition that may poll the caller's iterator (`iter.next().is_some()`) under `||` / `&&` / `!`"""
+        if e[0] == "bin" and e[1] == "||":
+            return self.cond(e[2], env, kthen, lambda env2: self.cond(e[3], env2, kthen, kelse))
+        if e[0] == "bin" and e[1] == "&&":
+            return self.cond(e[2], env, lambda env2: self.cond(e[3], env2, kthen, kelse), kelse)
+        if e[0] == "un" and e[1] == "!":
+            return self.cond(e[2], env, kelse, kthen)
+        if e[0] == "method" and e[2] in ("is_some", "is_none") and not e[3] and e[1][0] == "method" and e[1][2] == "next" \
+                and e[1][1][0] == "path" and env.get(e[1][1][1], ("",))[0] == "ext":
+            nv = self.nvars
+            self.nvars += 1
+            c = "(.var %d)" % nv
+            if e[2] == "is_none":
+                c = "(.not %s)" % c
+            nv2 = self.nvars
+            t = kthen(env)
+            self.nvars = nv2
+            el = kelse(env)
+            self.nvars = nv2
+            return "(.pollS\n  (.ite %s\n  %s\n  %s))" % (c, t, el)
+        c = self.X(e, env)
+        nv = self.nvars
+        t = kthen(env)
+        self.nvars = nv
+        el = kelse(env)
+        self.nvars = nv
+        return "(.ite %s\n  %s\n  %s)" % (c, t, el)
+
+    def hint_match(self, m, env, cont):
+        """`match iter.size_hint() { (n, _) if g => A, (_, Some(n)) if g => B, _ => C }`"""
+        arms = m[2]
+        def arm(i, env2):
+            if i == len(arms):
+                raise Unparsed("size_hint match without a catch-all arm")
+            pat, guard, body = arms[i]
+            blk = body if body[0] == "block" else (("block", [body], None) if body[0] in ("return", "assign", "for") else ("block", [], body))
+            run = lambda e3: self.block(blk, e3, lambda x, e4: cont(e4))
+            if pat == "_" and guard is None:
+                return run(env2)
+            import re
+            m1 = re.fullmatch(r"\((\w+),_\)", pat)
+            m2 = re.fullmatch(r"\(_,Some\((\w+)\)\)", pat)
+            if guard is None or not (m1 or m2):
+                raise Unparsed("size_hint arm %s" % pat)
+            genv = dict(env2)
+            if m1:
+                genv[m1.group(1)] = ("hint", ".hintLo")
+                c = self.X(guard, genv)
+            else:
+                genv[m2.group(1)] = ("hint", ".hintHi")
+                c = "(.hintHiAnd %s)" % self.X(guard, genv)
+            nv = self.nvars
+            t = run(env2)
+            self.nvars = nv
+            el = arm(i + 1, env2)
+            self.nvars = nv
+            return "(.ite %s\n  %s\n  %s)" % (c, t, el)
+        return arm(0, env)
 
     def struct_lit(self, name, lit, env, cont):
         fields = dict(lit[2])
@@ -340,24 +482,35 @@ class Lowerer:
             return self.kind_guess(e[2] if k == "un" else e[1], env)
         return "nat"
 
-    def inline_call(self, name, args, env, k):
-        """inline a method of the same impl family called on `self`; k(x, env)"""
-        hdr, body = self.find_callee(name)
-        params = fn_params(hdr)
-        vals = [p for p in params if p[1] == "value"]
-        if len(vals) != len(args):
+    def inline_call(self, name, args, env, k, recv=None):
+        """inline a method of the same impl family called on `self` (or on the local struct `recv`); k(x, env)"""
+        typ = recv[2] if recv is not None and recv[0] == "objref" and len(recv) > 2 else None
+        hdr, body = self.find_callee(name, typ)
+        params = [p for p in fn_params(hdr) if p[1] != "self"]
+        if len(params) != len(args):
             raise Unparsed("arity of %s" % name)
         if self.depth > 6:
             raise Unparsed("inline depth")
         # bind the arguments
         text = ""
         close = ""
-        cenv = {"self": env_self(env)}
-        for p, a in zip(vals, args):
-            text += "(.letv %s\n  " % self.X(a, env)
-            close += ")"
-            cenv = self.fresh(cenv, p[0], "nat")
+        cenv = {"self": recv if recv is not None else env_self(env)}
+        for p, a in zip(params, args):
+            if p[1] == "value":
+                text += "(.letv %s\n  " % self.X(a, env)
+                close += ")"
+                cenv = self.fresh(cenv, p[0], "nat")
+            else:
+                # a caller-supplied iterator handed on (`&mut iter`)
+                b = a
+                while b[0] == "un":
+                    b = b[2]
+                if b[0] == "path" and env.get(b[1], ("",))[0] == "ext":
+                    cenv[p[0]] = ("ext",)
+                else:
+                    raise Unparsed("argument %s of %s" % (p[0], name))
         self.depth += 1
+        cenv["$ret"] = lambda x, _e: k(x, env)
         try:
             inner = self.block(body, cenv, lambda x, _e: k(x, env))
         finally:
@@ -390,9 +543,45 @@ class Lowerer:
                 return self.inline_call(e[2], e[3], env, k)
         if kind == "struct":
             return self.struct_lit(None, e, env, lambda env2: k(".outObj", env2))
+        if kind == "call" and e[1] == ("path", "Ok") and len(e[2]) == 1 and e[2][0][0] == "block":
+            return self.block(e[2][0], env, lambda x, env2: k("(.ok %s)" % x, env2))
+        if kind == "match" and e[1][0] == "call" and e[1][1][0] == "path" and e[1][1][1].split("::")[-1] == "try_from_iter" \
+                and len(e[1][2]) == 1:
+            arms = dict((a[0], a[2]) for a in e[2])
+            if set(arms) != {"Ok(res)", "Err(_)"} or arms["Ok(res)"] != ("path", "res"):
+                raise Unparsed("arms of the match on try_from_iter")
+            fail = arms["Err(_)"]
+            if not (fail[0] == "call" and fail[1][0] == "path" and fail[1][1].split("::")[-1] == "from_iter_length_fail"):
+                raise Unparsed("Err arm is not from_iter_length_fail")
+            def kk(x, env2):
+                if x == ".err":
+                    # the callee returned `Err`: its locals are gone before the caller goes on
+                    return "(.endOut .lenFail)"
+                if x.startswith("(.ok ") and x.endswith(")"):
+                    return k(x[5:-1], env2)
+                raise Unparsed("try_from_iter result %s" % x)
+            return self.inline_static("try_from_iter", e[1][2], env, kk)
         if kind == "call" and e[1][0] == "path" and e[1][1].split("::")[-1] in ("forget", "drop_in_place", "write"):
             return self.effect(e, env, lambda env2: k(".unit", env2))
         return k(self.X(e, env), env)
+
+    def inline_static(self, name, args, env, k):
+        hdr, body = self.find_callee(name)
+        params = [p for p in fn_params(hdr) if p[1] != "self"]
+        if len(params) != len(args):
+            raise Unparsed("arity of %s" % name)
+        cenv = {}
+        for p, a in zip(params, args):
+            if a[0] == "path" and env.get(a[1], ("",))[0] in ("ignored", "ext"):
+                cenv[p[0]] = ("ignored",)
+            else:
+                raise Unparsed("argument of %s" % name)
+        self.depth += 1
+        cenv["$ret"] = lambda x, _e: k(x, env)
+        try:
+            return self.block(body, cenv, lambda x, _e: k(x, env))
+        finally:
+            self.depth -= 1
 
     def call_f(self, e, env, cont):
         # the caller's closure: the owned element is the last argument that is an element variable
@@ -408,6 +597,41 @@ class Lowerer:
         kind = e[0]
         if kind == "block":
             return self.block(e, env, lambda x, env2: cont(env2))
+        if kind == "match" and e[1][0] == "method" and e[1][2] == "size_hint" and e[1][1][0] == "path" \
+                and env.get(e[1][1][1], ("",))[0] == "ext":
+            return self.hint_match(e, env, cont)
+        if kind == "method":
+            recv, name, args = e[1], e[2], e[3]
+            # `dst.write(src)`
+            if name == "write" and len(args) == 1 and recv[0] == "path" and env.get(recv[1], ("",))[0] == "var" and env[recv[1]][2] == "slot":
+                a0 = args[0]
+                if a0[0] == "call" and a0[1][0] == "path" and env.get(a0[1][1], ("",))[0] == "closureF" and len(a0[2]) == 1:
+                    # `dst.write(f(i))`: the caller's closure produces the value
+                    nv = self.nvars
+                    self.nvars += 1
+                    return "(.callG %s\n  (.write %s (.var %d)\n  %s))" % (self.X(a0[2][0], env), self.X(recv, env), nv, cont(env))
+                return "(.write %s %s\n  %s)" % (self.X(recv, env), self.X(a0, env), cont(env))
+            # `builder_iter.enumerate().for_each(|(i, dst)| body)`
+            if name == "for_each" and len(args) == 1 and args[0][0] == "closure" and recv[0] == "method" and recv[2] == "enumerate" \
+                    and not recv[3] and recv[1][0] == "path" and env.get(recv[1][1], ("",))[0] == "slotsiter":
+                if env[recv[1][1]][1] != ".out":
+                    raise Unparsed("enumerate over an object that is not the builder")
+                params = args[0][1]
+                if len(params) != 1 or params[0][0] != "ptuple" or len(params[0][1]) != 2 or any(p[0] != "pbind" for p in params[0][1]):
+                    raise Unparsed("enumerate closure parameters")
+                nv = self.nvars
+                benv = self.fresh(env, params[0][1][0][1], "nat")
+                benv = self.fresh(benv, params[0][1][1][1], "slot")
+                body = args[0][2] if args[0][2][0] == "block" else ("block", [], args[0][2])
+                btext = self.block(body, benv, lambda x, env2: "(.done .unit)")
+                self.nvars = nv
+                return "(.forSlots\n  %s\n  %s)" % (btext, cont(env))
+            # `destination.zip(source).for_each(|(dst, src)| body)`
+            if name == "for_each" and len(args) == 1 and args[0][0] == "closure" and recv[0] == "method" and recv[2] == "zip" and len(recv[3]) == 1:
+                return self.fill(recv[1], recv[3][0], args[0], env, cont)
+            # a method of a local struct value (`builder.extend(&mut iter)`, `builder.finish()`)
+            if recv[0] == "path" and env.get(recv[1], ("",))[0] == "objref":
+                return self.inline_call(name, args, env, lambda x, env2: cont(env), recv=env[recv[1]])
         if kind == "call" and e[1][0] == "path":
             fn = e[1][1]
             base = fn.split("::")[-1]
@@ -426,6 +650,8 @@ class Lowerer:
                 raise Unparsed("drop_in_place argument")
             if base == "forget" and len(e[2]) == 1 and self.obj_of(e[2][0], env) == ".self":
                 return "(.forget\n  %s)" % cont(env)
+            if base == "forget" and len(e[2]) == 1:
+                return "(.forgetO %s\n  %s)" % (self.obj_of(e[2][0], env), cont(env))
             if base == "write" and len(e[2]) == 2:
                 dst, v = e[2]
                 if v[0] == "method" and v[2] == "clone" and not v[3]:
@@ -441,13 +667,40 @@ class Lowerer:
             self.notes.append("debug_assert!(%s) skipped" % e[3])
             return cont(env)
         if kind == "if":
-            c = self.X(e[1], env)
-            nv = self.nvars
-            t = self.block(e[2], env, lambda x, env2: cont(env))
-            self.nvars = nv
-            el = cont(env) if e[3] is None else self.block(e[3], env, lambda x, env2: cont(env))
-            return "(.ite %s\n  %s\n  %s)" % (c, t, el)
+            return self.cond(e[1], env,
+                             lambda env2: self.block(e[2], env2, lambda x, env3: cont(env)),
+                             lambda env2: cont(env) if e[3] is None else self.block(e[3], env2, lambda x, env3: cont(env)))
         raise Unparsed("effect %s" % kind)
+
+    def fill(self, a, b, clo, env, cont):
+        def kind_of(x):
+            while x[0] == "un":
+                x = x[2]
+            if x[0] == "path" and x[1] in env:
+                return env[x[1]][0], env[x[1]]
+            return None, None
+        ka, ba = kind_of(a)
+        kb, bb = kind_of(b)
+        if ka == "slotsiter" and kb == "ext":
+            dest_first, o = True, ba[1]
+        elif ka == "ext" and kb == "slotsiter":
+            dest_first, o = False, bb[1]
+        else:
+            raise Unparsed("zip of %s and %s" % (ka, kb))
+        if o != ".out":
+            raise Unparsed("fill loop over an object that is not the builder")
+        params = clo[1]
+        if len(params) != 1 or params[0][0] != "ptuple" or len(params[0][1]) != 2 or any(p[0] != "pbind" for p in params[0][1]):
+            raise Unparsed("fill closure parameters")
+        n0, n1 = params[0][1][0][1], params[0][1][1][1]
+        dname, sname = (n0, n1) if dest_first else (n1, n0)
+        nv = self.nvars
+        benv = self.fresh(env, dname, "slot")
+        benv = self.fresh(benv, sname, "elem")
+        body = clo[2] if clo[2][0] == "block" else ("block", [], clo[2])
+        btext = self.block(body, benv, lambda x, env2: "(.done .unit)")
+        self.nvars = nv
+        return "(.fillS %s\n  %s\n  %s)" % ("true" if dest_first else "false", btext, cont(env))
 
     def fold(self, e, env, cont, bind):
         rev = e[2] == "rfold"
@@ -487,8 +740,8 @@ class Lowerer:
 
 
 def env_self(env):
-    for b in env.values():
-        if b[0] == "self":
+    for kk, b in env.items():
+        if kk != "$ret" and b[0] == "self":
             return b
     return ("self",)
 
@@ -535,7 +788,7 @@ def lower_fn(table, key):
             nargs += 1
         else:
             # caller data: a closure `f`, an accumulator `init`, a formatter …
-            env[p[0]] = ("closureF",) if p[2] in ("F",) else ("ignored",)
+            env[p[0]] = ("closureF",) if p[2] in ("F",) else (("ext",) if "Iterator" in p[2] else ("ignored",))
     text = L.block(body, env, lambda x, env2: "(.done %s)" % x)
     return recv, nargs, text, L.notes
 
@@ -564,6 +817,9 @@ TARGETS = [
     ("internal.rs", ("IntrusiveArrayBuilder<'a,T,N>{",), "finish", "intrusiveFinish"),
     ("internal.rs", ("DropforIntrusiveArrayBuilder",), "drop", "intrusiveDrop"),
     ("internal.rs", ("DropforArrayConsumer",), "drop", "consumerDrop"),
+    ("lib.rs", ("GenericArray<T,N>{",), "try_from_iter", "tryFromIter"),
+    ("lib.rs", ("FromIterator<T>forGenericArray<T,N>",), "from_iter", "fromIter"),
+    ("lib.rs", ("GenericSequence<T>forGenericArray<T,N>",), "generate", "generate"),
 ]
 
 
@@ -571,7 +827,7 @@ def build_table():
     """(file/impl-header, fn name) -> (header tokens, parsed body) for every fn in the two files"""
     table = {}
     errors = {}
-    for fname in ("iter.rs", "internal.rs"):
+    for fname in ("iter.rs", "internal.rs", "lib.rs"):
         toks = rsparse.tokenize(open(os.path.join(REPO, "src", fname)).read())
         for imp in rsparse.items(toks, "impl"):
             h = imp.header_text()
@@ -630,8 +886,9 @@ def main():
     if new != old:
         with open(OUT, "w") as f:
             f.write(new)
-    os.makedirs(os.path.join(ROOT, "build"), exist_ok=True)
-    json.dump(status, open(os.path.join(ROOT, "build", "body_status.json"), "w"), indent=1, sort_keys=True)
+    bdir = os.environ.get("VERIF_BUILD_DIR", os.path.join(ROOT, "build"))
+    os.makedirs(bdir, exist_ok=True)
+    json.dump(status, open(os.path.join(bdir, "body_status.json"), "w"), indent=1, sort_keys=True)
     for k, v in sorted(status.items()):
         if v["status"] != "ok":
             print("NOTE body-unlowered fn=%s why=%s" % (k, v["why"][:160]))
